@@ -84,7 +84,7 @@ Definition cf_vop2 (op : Z) : option vdesc :=
   end.
 Definition gf_vop3a (op : Z) : option vdesc :=
   match op with
-  | 65 | 68 | 78 => x_fcmp MDst op
+  | 65 | 68 | 77 | 78 => x_fcmp MDst op
   | 258 => Some (d2 (fun a b => val (f32_sub a b)))
   | 449 => Some (d3 (fun a b c => val (f32_add (f32_mul a b) c)))
   | _ => None
@@ -102,7 +102,7 @@ Definition vdesc_f (a : arch) (f : format) (op : Z) : option vdesc :=
   match a, f with
   | GCN3, F_VOP2 => gf_vop2 op | CDNA3, F_VOP2 => cf_vop2 op
   | _, F_VOP1 => x_vop1_f op
-  | CDNA3, F_VOPC => if (65 <=? op) && (op <=? 70) then x_fcmp MVcc op else None
+  | CDNA3, F_VOPC => if (65 <=? op) && (op <=? 70) || (op =? 75) || (op =? 78) then x_fcmp MVcc op else None
   | GCN3, F_VOPC => if (65 <=? op) && (op <=? 78) then x_fcmp MVcc op else None
   | GCN3, F_VOP3A => gf_vop3a op | CDNA3, F_VOP3A => cf_vop3a op
   | _, _ => None
